@@ -1190,13 +1190,19 @@ theorem colNormsSymNoReset_spec [Field α] [LinearOrder α] [IsStrictOrderedRing
       ((M.col i).map (fun e => [(i, fabs e.2), (e.1, fabs e.2)])).flatten)).flatten
   have hmem : ∀ t, t ∈ T ↔ ∃ j, j < M.n ∧ ∃ e ∈ M.col j, t = (j, |e.2|) ∨ t = (e.1, |e.2|) := by
     intro t
-    simp only [T, List.mem_flatten, List.mem_map, List.mem_range, hs]
     constructor
-    · rintro ⟨_, ⟨j, hj, rfl⟩, _, ⟨e, he, rfl⟩, ht⟩
+    · intro ht
+      simp only [T, List.mem_flatten, List.mem_map, List.mem_range, hs] at ht
+      obtain ⟨_, ⟨j, hj, rfl⟩, ht⟩ := ht
+      simp only [List.mem_flatten, List.mem_map] at ht
+      obtain ⟨_, ⟨e, he, rfl⟩, ht⟩ := ht
       simp only [List.mem_cons, List.not_mem_nil, or_false, LawfulFloatLike.fabs_eq] at ht
       exact ⟨j, hj, e, he, ht⟩
     · rintro ⟨j, hj, e, he, ht⟩
-      refine ⟨_, ⟨j, hj, rfl⟩, _, ⟨e, he, rfl⟩, ?_⟩
+      simp only [T, List.mem_flatten, List.mem_map, List.mem_range, hs]
+      refine ⟨_, ⟨j, hj, rfl⟩, ?_⟩
+      simp only [List.mem_flatten, List.mem_map]
+      refine ⟨_, ⟨e, he, rfl⟩, ?_⟩
       simpa [LawfulFloatLike.fabs_eq] using ht
   have hb : ∀ t ∈ T, t.1 < norms.size := by
     intro t ht
@@ -1230,5 +1236,232 @@ theorem colNormsSymNoReset_spec [Field α] [LinearOrder α] [IsStrictOrderedRing
   · rcases m3 with h | h
     · exact Or.inl h
     · exact Or.inr ((hcv _).mp h)
+
+
+/-! ### canonicalize is the identity on canonical matrices -/
+
+/-- [S] `canonicalize` of a canonical matrix (whose `colptr` starts at 0) returns the
+matrix unchanged, bit for bit: same arrays, no value is touched (any scalar type). -/
+theorem canonicalize_of_canonical [Add α] (M : Csc α) (hM : Canonical M)
+    (h0 : M.colptr.getD 0 0 = 0) : M.canonicalize = .ok M := by
+  have hd : M.checkDimensions = .ok () := by
+    have := (check_format_iff M).mpr hM
+    unfold checkFormat at this
+    cases h : M.checkDimensions with
+    | error e => rw [h] at this; cases this
+    | ok u => rfl
+  have hsort : M.sortIndices = M := by
+    unfold sortIndices
+    have : M.cols.map sortByRow = M.cols := by
+      unfold cols
+      rw [List.map_map]
+      apply List.map_congr_left
+      intro j hj
+      exact sortByRow_of_sorted _ (colOK_of_canonical hM j (List.mem_range.mp hj)).1
+    rw [this, ofCols_cols_self M hM h0]
+  have hdd : M.deduplicate = M := by
+    unfold deduplicate
+    have : M.cols.map dedupeRows = M.cols := by
+      unfold cols
+      rw [List.map_map]
+      apply List.map_congr_left
+      intro j hj
+      exact dedupeRows_of_sorted _ (colOK_of_canonical hM j (List.mem_range.mp hj)).1
+    rw [this, ofCols_cols_self M hM h0]
+  unfold canonicalize
+  rw [hd]
+  simp only [hsort, hdd]
+
+/-- [F] (additive monoid) `canonicalize` is idempotent: its result is a fixed point. -/
+theorem canonicalize_idem [AddMonoid α] (M : Csc α) (hd : M.checkDimensions = .ok ())
+    (hb : ∀ r ∈ M.rowval.toList, r < M.m) :
+    ∃ R, M.canonicalize = .ok R ∧ R.canonicalize = .ok R := by
+  obtain ⟨R, h1, h2, _⟩ := canonicalize_spec M hd hb
+  refine ⟨R, h1, canonicalize_of_canonical R h2 ?_⟩
+  unfold canonicalize at h1
+  rw [hd] at h1
+  simp only [Except.ok.injEq] at h1
+  subst h1
+  unfold deduplicate
+  rw [ofCols_colptr_getD _ _ _ 0 (by omega)]
+  simp
+
+/-- non-vacuity: `exM` is a fixed point of `canonicalize` -/
+example : exM.canonicalize = .ok exM := canonicalize_of_canonical exM exM_canonical rfl
+
+
+/-! ### index_to_coord -/
+
+/-- [S] `index_to_coord` on a canonical matrix whose `colptr` starts at 0: for a linear
+index below `nnz` the call succeeds and returns the coordinates of the `idx`-th stored
+entry — its row index, and the unique column whose pointer range contains `idx`. -/
+theorem indexToCoord_spec (M : Csc α) (idx : Nat) (hM : Canonical M)
+    (h0 : M.colptr.getD 0 0 = 0) (hidx : idx < M.nnz) :
+    ∃ row col, M.indexToCoord idx = .ok (row, col) ∧ M.rowval[idx]? = some row ∧ col < M.n ∧
+      M.colptr.getD col 0 ≤ idx ∧ idx < M.colptr.getD (col + 1) 0 := by
+  have hs := hM.colptr_size
+  have hnnz : M.nnz = M.rowval.size := hM.colptr_last
+  have hidx' : idx < M.rowval.size := by omega
+  obtain ⟨hp1, hp2⟩ := takeWhile_length_spec M.colptr.toList (fun c => decide (idx + 1 > c))
+  set pp := (M.colptr.toList.takeWhile (fun c => decide (idx + 1 > c))).length with hpp
+  have hlen : M.colptr.toList.length = M.n + 1 := by simp [hs]
+  have hpp_le : pp ≤ M.n + 1 := by
+    rw [← hlen]; exact (List.takeWhile_prefix _).length_le
+  -- pp ≥ 1 : the first pointer is 0 ≤ idx
+  have hpp_pos : 1 ≤ pp := by
+    by_contra hc
+    have hz : pp = 0 := by omega
+    have := hp2 (by rw [hz, hlen]; omega)
+    rw [toList_getElem_eq_getD _ pp (by omega), hz, h0] at this
+    simp at this
+  -- pp ≤ n : the last pointer is nnz > idx
+  have hpp_n : pp ≤ M.n := by
+    by_contra hc
+    have hz : M.n < pp := by omega
+    have := hp1 M.n (by rw [hlen]; omega) hz
+    rw [toList_getElem_eq_getD _ M.n (by omega)] at this
+    simp only [decide_eq_true_eq] at this
+    unfold nnz at hidx
+    omega
+  refine ⟨M.rowval[idx], pp - 1, ?_, Array.getElem?_eq_getElem hidx', by omega, ?_, ?_⟩
+  · unfold indexToCoord
+    simp only [hidx, decide_true, Bool.not_true, Bool.false_eq_true, ↓reduceIte,
+      Array.getElem?_eq_getElem hidx']
+    rfl
+  · have := hp1 (pp - 1) (by rw [hlen]; omega) (by omega)
+    rw [toList_getElem_eq_getD _ (pp - 1) (by omega)] at this
+    simp only [decide_eq_true_eq] at this
+    omega
+  · have := hp2 (by rw [hlen]; omega)
+    rw [toList_getElem_eq_getD _ pp (by omega)] at this
+    simp only [decide_eq_false_iff_not] at this
+    have e : pp - 1 + 1 = pp := by omega
+    rw [e]
+    omega
+
+/-- non-vacuity of `indexToCoord_spec` -/
+example : ∃ row col, exM.indexToCoord 3 = .ok (row, col) ∧ col < 3 :=
+  let ⟨r, c, h1, _, h2, _⟩ := indexToCoord_spec exM 3 exM_canonical rfl (by decide)
+  ⟨r, c, h1, h2⟩
+
+
+/-! ### zeros / identity -/
+
+/-- [S] `zeros(m,n)` is canonical, `m × n`, stores nothing: every dense entry is 0. -/
+theorem zeros_spec [Add α] [OfNat α 0] (m n : Nat) :
+    Canonical (zeros m n : Csc α) ∧ (zeros m n : Csc α).m = m ∧ (zeros m n : Csc α).n = n ∧
+      (zeros m n : Csc α).rowval.size = 0 ∧ ∀ i j, (zeros m n : Csc α).toDense i j = 0 := by
+  have hcp : (zeros m n : Csc α).colptr.toList = List.replicate (n + 1) 0 := by
+    simp [zeros, spalloc, List.replicate_succ']
+  refine ⟨⟨rfl, by simp [zeros, spalloc], ?_, ?_, ?_, ?_⟩, rfl, rfl, rfl, ?_⟩
+  · have : (zeros m n : Csc α).colptr.getD n 0 = 0 := by
+      simp [zeros, spalloc, Array.getD_eq_getD_getElem?, Array.getElem_push]
+    rw [show (zeros m n : Csc α).n = n from rfl, this]; rfl
+  · rw [noBadAdjacent_iff_getElem, hcp]
+    intro k hk
+    simp
+  · intro j _
+    have : (zeros m n : Csc α).colRows j = [] := by simp [colRows, zeros, spalloc]
+    rw [this]; trivial
+  · intro r hr
+    simp [zeros, spalloc] at hr
+  · intro i j
+    have : (zeros m n : Csc α).col j = [] := by simp [col, zeros, spalloc]
+    simp [toDense, this]
+
+/-- [S] `identity(n)` is canonical, `n × n`, with exactly the value `1` stored at every
+diagonal position and nothing else. -/
+theorem identity_spec [OfNat α 1] (n : Nat) :
+    Canonical (identity n : Csc α) ∧ (identity n : Csc α).m = n ∧ (identity n : Csc α).n = n ∧
+      ∀ j, j < n → (identity n : Csc α).col j = [(j, 1)] := by
+  have hcol : ∀ j, j < n → (identity n : Csc α).col j = [(j, 1)] := by
+    intro j hj
+    have h1 : ((List.range (n + 1)).toArray).getD j 0 = j := by
+      simp [Array.getD_eq_getD_getElem?, Array.getElem?_range, show j < n + 1 by omega]
+    have h2 : ((List.range (n + 1)).toArray).getD (j + 1) 0 = j + 1 := by
+      simp [Array.getD_eq_getD_getElem?, Array.getElem?_range, hj]
+    unfold col identity
+    simp only [h1, h2, Array.toList_extract, List.extract_eq_drop_take', List.toList_toArray,
+      Array.toList_replicate]
+    have e1 : ((List.range n).take (j + 1)).drop j = [j] := by
+      rw [List.take_range, Nat.min_eq_left (by omega), List.range_succ]
+      simp
+    have e2 : ((List.replicate n (1 : α)).take (j + 1)).drop j = [1] := by
+      rw [List.take_replicate, Nat.min_eq_left (by omega), List.drop_replicate]
+      simp
+    rw [e1, e2]; rfl
+  refine ⟨⟨by simp [identity], by simp [identity], ?_, ?_, ?_, ?_⟩, rfl, rfl, hcol⟩
+  · simp [identity, Array.getD_eq_getD_getElem?]
+  · rw [noBadAdjacent_iff_getElem]
+    intro k hk
+    simp [identity] at hk ⊢
+  · intro j hj
+    rw [colRows_eq_map_col _ (by simp [identity]), hcol j hj]
+    trivial
+  · intro r hr
+    simp [identity] at hr
+    exact hr
+
+/-- non-vacuity -/
+example : Canonical (identity 3 : Csc Int) ∧ Canonical (zeros 2 3 : Csc Int) :=
+  ⟨(identity_spec 3).1, (zeros_spec 2 3).1⟩
+
+
+/-! ### construction from rows -/
+
+/-- [F] (additive monoid) `CscMatrix::from(rows)` on a rectangular array of rows succeeds
+and returns a canonical `m × n` matrix whose dense entries are the given numbers and which
+stores no zero. -/
+theorem fromRows_spec [AddMonoid α] [DecidableEq α] (rows : Array (Array α)) (n : Nat)
+    (hrect : ∀ r ∈ rows.toList, r.size = n) (hn : rows.size = 0 → n = 0) :
+    ∃ R, fromRows rows = .ok R ∧ Canonical R ∧ R.m = rows.size ∧ R.n = n ∧
+      (∀ i j (hi : i < rows.size), j < n → ∀ v, rows[i][j]? = some v → R.toDense i j = v) ∧
+      (∀ j, j < n → ∀ e ∈ R.col j, e.2 ≠ 0) := by
+  have hn0 : rowsWidth rows = n := by
+    unfold rowsWidth
+    cases h : rows[0]? with
+    | none =>
+      have : rows.size = 0 := by
+        by_contra hc
+        rw [Array.getElem?_eq_getElem (by omega)] at h
+        cases h
+      exact (hn this).symm
+    | some r =>
+      have hmem : r ∈ rows.toList := by
+        have := Array.mem_of_getElem? h
+        simpa using this
+      exact hrect r hmem
+  have hall : (rows.toList.all (fun r => r.size == n)) = true := by
+    rw [List.all_eq_true]
+    intro r hr
+    simpa using hrect r hr
+  refine ⟨ofCols rows.size n ((List.range n).map (fun c =>
+    rows.toList.zipIdx.filterMap (fromRowsEntry c))), ?_, ?_, rfl, rfl, ?_, ?_⟩
+  · unfold fromRows
+    simp only [hn0, hall, Bool.not_true, Bool.false_eq_true, ↓reduceIte]
+    rfl
+  · apply canonical_ofCols
+    · simp
+    · intro c hc
+      simp only [List.mem_map, List.mem_range] at hc
+      obtain ⟨j, _, rfl⟩ := hc
+      obtain ⟨h1, h2, _⟩ := fromRows_col_spec rows.toList j 0
+      exact ⟨h1, fun e he => by have := (h2 e he).2.1; simpa using this⟩
+  · intro i j hi hj v hv
+    rw [toDense_eq_sum_colVals, col_ofCols _ _ _ j (by simpa using hj)]
+    simp only [List.getElem_map, List.getElem_range]
+    have := (fromRows_col_spec rows.toList j 0).2.2 i (by simpa using hi) v (by simpa using hv)
+    rw [Nat.zero_add] at this
+    rw [this]
+    by_cases hv0 : v = 0 <;> simp [hv0]
+  · intro j hj e he
+    rw [col_ofCols _ _ _ j (by simpa using hj)] at he
+    simp only [List.getElem_map, List.getElem_range] at he
+    exact ((fromRows_col_spec rows.toList j 0).2.1 e he).2.2
+
+/-- non-vacuity of `fromRows_spec` -/
+example : ∃ R, fromRows #[#[(1 : Int), 0], #[0, 2]] = .ok R ∧ Canonical R ∧ R.n = 2 :=
+  let ⟨R, h1, h2, _, h3, _⟩ := fromRows_spec #[#[(1 : Int), 0], #[0, 2]] 2 (by decide) (by decide)
+  ⟨R, h1, h2, h3⟩
 
 end Clarabel.C16
